@@ -10,7 +10,8 @@ from verif.checks import mdibcommon, mirrorcommon
 
 def check(run, replay_path=None):
     mdibcommon.model_check(run)
-    variants = [dict(), dict(async_mgr=True), dict(reference_params=True)]
+    # 'fullstack': real SoapClient + real HTTP request handler (chunked, compressed) instead of the plain loop-back client
+    variants = [dict(), dict(async_mgr=True), dict(reference_params=True), dict(transport='fullstack', chunk_size=512)]
     mirrorcommon.run_family(run, 'C01', run.pick(120, 3000), variants)
     run.assumptions += ['in-order, exactly-once delivery (loop-back transport, synchronous dispatcher)',
                         'equality on canonical projections: implied = explicit, timestamps at 1 ms, clock time excluded',
